@@ -290,7 +290,7 @@ class EnumeratedParameterType(ParameterType):
                 *(
                     elmaker.Enumeration(
                         label=label,
-                        value=str(value.decode(self.encoding.encoding))
+                        value=str(value.decode(self.encoding._codec))
                         if isinstance(self.encoding, encodings.StringDataEncoding)
                         else str(value)
                     )
@@ -338,7 +338,7 @@ class EnumeratedParameterType(ParameterType):
 
         if isinstance(encoding, encodings.StringDataEncoding):
             return {
-                bytes(el.attrib['value'], encoding=encoding.encoding): el.attrib['label']
+                bytes(el.attrib['value'], encoding=encoding._codec): el.attrib['label']
                 for el in enumeration_list.iterfind('*')
             }
 
